@@ -67,8 +67,8 @@ Proof. vm_compute. auto. Qed.
 
 (* ------------------------------------------------------------------ refutations at the defect sites.
    `..._refuted_before_fix` : about original_cfg, the code before the repairs c5c2382 / dff454e landed in /repo (kept as
-   the record of what the `fixed` entries of known_findings.d/C01.json were); `..._refuted` : about current_cfg, the two
-   sites that are still open (SNodeOutputsOwned, SGraphNew). *)
+   the record of what the `fixed` entries of known_findings.d/C01.json were); `..._refuted` : about current_cfg, the one
+   site that is still open (SNodeOutputsOwned); SGraphNew was repaired by /repo 680d931. *)
 Lemma need_listed h k v g : InvP h -> flag k (how h) v = true -> vgraph (how h) v = Some g -> memb v (iol k (how h) g) = true.
 Proof. intros (_ & _ & _ & _ & H4 & _) Hf Hg. apply memb_In. apply H4. auto. Qed.
 Lemma need_flag h k v g : InvP h -> memb v (iol k (how h) g) = true -> flag k (how h) v = true /\ vgraph (how h) v = Some g.
@@ -145,17 +145,18 @@ Print Assumptions C01_nodeoutputs_dup_refuted_before_fix.
 
 (* Graph([a, foreign]) raises, a keeps the input flag and points to the half-built graph *)
 Definition w_graphnew := w_pre ++ [GraphNew 2 [0; 1] [] [] []].
-Theorem C01_graphnew_refuted : ~ InvP (run current_cfg w_graphnew empty_heap).
+Theorem C01_graphnew_refuted_before_fix : ~ InvP (run original_cfg w_graphnew empty_heap).
 Proof. intros H. pose proof (need_listed _ KIn 0 2 H eq_refl eq_refl) as X. vm_compute in X. discriminate. Qed.
-Print Assumptions C01_graphnew_refuted.
+Print Assumptions C01_graphnew_refuted_before_fix.
 
 (* the witnesses of the repaired sites are now ordinary clean histories of the current model *)
 Example repaired_witnesses_clean :
   clean current_cfg w_delitem empty_heap /\ clean current_cfg w_imul empty_heap /\ clean current_cfg w_extend empty_heap /\
   clean current_cfg w_insert empty_heap /\ clean current_cfg w_setitem empty_heap /\ clean current_cfg w_initset empty_heap /\
-  clean current_cfg w_gextend empty_heap /\ clean current_cfg w_ginsert empty_heap /\ clean current_cfg w_nodeouts_dup empty_heap.
+  clean current_cfg w_gextend empty_heap /\ clean current_cfg w_ginsert empty_heap /\ clean current_cfg w_nodeouts_dup empty_heap /\
+  clean current_cfg w_graphnew empty_heap.
 Proof.
   repeat (match goal with |- _ /\ _ => split end);
-    cbv [w_delitem w_imul w_pre w_extend w_insert w_setitem w_initset w_gpre w_gextend w_ginsert w_nodeouts_dup app];
+    cbv [w_delitem w_imul w_pre w_extend w_insert w_setitem w_initset w_gpre w_gextend w_ginsert w_nodeouts_dup w_graphnew app];
     cbn [clean]; repeat (split; [vm_compute; reflexivity|]); exact I.
 Qed.
